@@ -33,6 +33,11 @@ ANY = z3.Function("col_has_nonzero", z3.IntSort(), z3.BoolSort())
 FIRST = z3.Function("col_first_nonzero", z3.IntSort(), z3.IntSort())
 LAST = z3.Function("col_last_nonzero", z3.IntSort(), z3.IntSort())
 NDATA = z3.Function("cols_with_data_before", z3.IntSort(), z3.IntSort())
+NS = z3.Function("col_strings", z3.IntSort(), z3.IntSort())                           # number of maximal runs of non-zeros in column c
+R0 = z3.Function("string_first_row", z3.IntSort(), z3.IntSort(), z3.IntSort())        # first row (0-based) of run k of column c
+R1 = z3.Function("string_rows", z3.IntSort(), z3.IntSort(), z3.IntSort())             # its number of rows
+PS = z3.Function("rows_in_strings_before", z3.IntSort(), z3.IntSort(), z3.IntSort())  # R1(c,0) + ... + R1(c,k-1)
+TOT = z3.Function("col_nonzero_run_rows", z3.IntSort(), z3.IntSort())                 # PS(c, NS(c))
 MULT = z3.Int("MULT")
 ROWS = z3.Int("ROWS")
 AI = z3.ArraySort(z3.IntSort(), z3.IntSort())
@@ -71,8 +76,14 @@ def _view(col, lo, hi, as_float):
     def ravel(eng, e, st, spec):
         return o
 
+    def nonzero(eng, e, st, spec):
+        pv = PyObj("nonzero indices of column")
+        pv.transient = True
+        pv.view = o
+        return (pv,)
+
     o.getitem, o.setattr = getitem, setattr_
-    o.methods = {"ravel": ravel}
+    o.methods = {"ravel": ravel, "nonzero": nonzero}
     return o
 
 
@@ -92,6 +103,8 @@ def make_env():
             n = other[:-1]
             if k in "id" and (n == "" or n.isdigit()):
                 return Fmt(k, int(n) if n else 1)
+            if set(other) == {"i"}:
+                return Fmt("i", len(other))
         raise Unsupported("struct format %r" % (other,))
     endian.binop = endian_binop
 
@@ -273,7 +286,8 @@ def dense_writer():
         c.ghost(g, "intmap", None)
     # capacity of the format (4-byte integers): beyond it struct.pack raises - an error, not a wrong file; NDATA(0) == 0 is the base case of its definition
     c.requires("COLS__ >= 0", "MULT == 1 or MULT == 2", "ROWS >= 0", "P0__ >= 0", "COLS__ < 2147483647", "16 * ROWS + 12 <= 2147483647", "NDATA(0) == 0")
-    c.loop("0", invariant=["0 <= nx_c", "nx_c <= cols", "cols == COLS__", "multiplier == MULT", "nrec__ == NDATA(nx_c)", "pos__ >= P0__ + 32"], unfold=["UNFOLD_NDATA(nx_c)"])
+    c.loop("0", invariant=["0 <= nx_c", "nx_c <= cols", "cols == COLS__", "multiplier == MULT", "nrec__ == NDATA(nx_c)", "pos__ >= P0__ + 32",
+                           "nrec__ == 0 or pos__ == rec0__ + 4 + W4(rec0__) + 4 and W4(pos__ - 4) == W4(rec0__)"], unfold=["UNFOLD_NDATA(nx_c)"])
     call = "_write_col_data(f, v, c, s, elems, endian, colHeader, colTrailer)"
     c.after_stmt(call, ["assert W4(rec0__ + 4) == c + 1",
                         "assert W4(rec0__ + 8) == FIRST(c) + 1",
@@ -291,13 +305,17 @@ def dense_writer():
 
 
 def jobs(src):
+    return jobs_dense(src) + jobs_sparse(src)
+
+
+def jobs_dense(src):
     c, b = dense_writer()
     return [dict(contract=c, source=src, builtins=b, lang="python", tag="op4._write_binary[ndarray; ghost output file]",
                  dropped_extra={"branch not covered": "the scipy.sparse branch (`else` of isinstance(matrix, np.ndarray)) - bounded round trips only",
                                 "assumed callee contract": "_write_binary_header returns (number of columns, 2 if complex else 1) and appends 32 bytes"})]
 
 
-def concrete_search(limit=4000):
+def concrete_search(limit=12000):
     """after a failed writer obligation: look for a concrete matrix whose dense binary write -> load round trip on the REAL code is wrong (small shapes,
     leading / trailing zero rows, all-zero columns, real and complex, both byte orders).  Returns a counterexample dict or None."""
     import itertools, os, tempfile
@@ -314,20 +332,166 @@ def concrete_search(limit=4000):
                     M = np.array(combo, dtype=float).T * (np.arange(1, rows * cols + 1).reshape(cols, rows).T + 0.25)
                     if cplx:
                         M = M * (1 + 0.5j)
-                    for endian in "<>":
+                    for endian, lay in (("<", "dense"), (">", "dense"), ("<", "bigmat"), (">", "nonbigmat"), ("<", "nonbigmat"), (">", "bigmat")):
                         n += 1
                         if n > limit:
                             return None
                         try:
-                            op4.write(fn, {"A": M, "Z": np.ones((2, 2))}, binary=True, endian=endian, sparse="dense")
+                            op4.write(fn, {"A": M, "Z": np.ones((2, 2))}, binary=True, endian=endian, sparse=lay)
                             d = {k.upper(): v for k, v in op4.load(fn, into="dct").items()}
                             ok = d["A"][0].shape == M.shape and np.array_equal(d["A"][0], M) and np.array_equal(d["Z"][0], np.ones((2, 2)))
                             got = d["A"][0].tolist() if not ok else None
                         except Exception as ex:          # noqa: BLE001 - the real code failing on a valid matrix is the counterexample
                             ok, got = False, "%s: %s" % (type(ex).__name__, ex)
                         if not ok:
-                            return dict(what="dense binary op4.write -> op4.load does not return the matrix written", matrix=repr(M.tolist()), endian=endian, read_back=repr(got)[:600], fails=True)
+                            return dict(what="binary op4.write(sparse=%r) -> op4.load does not return the matrix written" % lay, matrix=repr(M.tolist()), endian=endian, layout=lay, read_back=repr(got)[:600], fails=True)
     finally:
         import shutil
         shutil.rmtree(tmp, ignore_errors=True)
     return None
+
+
+# ------------------------------------------------------------------------------------------------------------------ sparse layouts
+def sparse_writer(layout):
+    """`_write_binary_bigmat` / `_write_binary_nonbigmat` with `OP4._write_binary_sparse` (ndarray branch) and the two nested helpers INLINED at their call sites.
+    The column is abstract: NS(c) maximal runs of non-zeros, run k = rows R0(c,k) .. R0(c,k)+R1(c,k)-1, TOT(c) = sum of the R1 (PS = partial sums, by unfolding);
+    `OP4._sparse_col_stats(v.nonzero()[0])` yields exactly these runs (its own arithmetic is a kernel obligation of C04 and bounded), `sum(ind[:, 1])` is TOT(c)."""
+    env = make_env()
+    b = dict(env["builtins"])
+    HW = 2 if layout == "bigmat" else 1
+    fname = {"bigmat": "_write_binary_bigmat", "nonbigmat": "_write_binary_nonbigmat"}[layout]
+    c = Contract(FILE, "OP4." + fname, floats="real")
+    c.objects = True
+    c.variant = "ndarray"
+    c.names = {"float": FLOAT}
+    c.inline = {"OP4._write_binary_sparse": ("OP4._write_binary_sparse", "S")}
+
+    def str_format(eng, a, b_):
+        if a == "%dd":
+            return Fmt("d", eng.to_int(b_))
+        raise Unsupported("string format %r" % (a,))
+    c.str_format = str_format
+    c.extra_mods = ("pos__", "W4__", "VCOL__", "VLO__", "VN__", "rec0__", "nrec__", "S__")
+    matrix, selfobj = env["matrix"], env["selfobj"]
+    matrix.attrs["shape"] = (ROWS, z3.Int("COLS__"))
+    selfobj.attrs["_rows4bigmat"] = 65536
+    selfobj.methods["_write_binary_bigmat"] = lambda eng, e, st, spec: None
+
+    def isinstance_(eng, e, st, spec):
+        a = eng.ev(e.args[0], st)
+        t = ast.unparse(e.args[1])
+        if a is matrix and t == "np.ndarray":
+            return True
+        if a is matrix and t == "tuple":
+            return False
+        raise Unsupported("isinstance(%s)" % ast.unparse(e)[:40])
+
+    def col_stats(eng, e, st, spec):
+        pv = eng.ev(e.args[0], st)
+        if not (isinstance(pv, PyObj) and getattr(pv, "view", None) is not None):
+            raise Unsupported("_sparse_col_stats of something that is not v.nonzero()[0]")
+        v = pv.view
+        if not z3.simplify(v.lo == 0).eq(z3.BoolVal(True)):
+            raise Unsupported("_sparse_col_stats of a sub-view")
+        col = v.col
+        # definition of the runs of a column that has a non-zero (numpy / _sparse_col_stats semantics, assumed; exercised by the bounded round trips)
+        st.assume(z3.Implies(ANY(col), z3.And(NS(col) >= 1, NS(col) <= TOT(col), TOT(col) <= ROWS, PS(col, 0) == 0, PS(col, NS(col)) == TOT(col))))
+        ind = PyObj("runs of column", attrs={"shape": (NS(col), 2)})
+        ind.transient = True
+        ind.col = col
+        ind.iter_rows = (NS(col), lambda k: (R0(col, k), R1(col, k)))
+
+        def getitem(eng_, e2, st2, spec2):
+            if ast.unparse(e2.slice) in ("(slice(None, None, None), 1)", ":, 1") or ast.unparse(e2).endswith("[:, 1]"):
+                lens = PyObj("run lengths")
+                lens.transient = True
+                lens.total = TOT(col)
+                return lens
+            raise Unsupported("index %s into the runs table" % ast.unparse(e2))
+        ind.getitem = getitem
+        return ind
+
+    def sum_(eng, e, st, spec):
+        x = eng.ev(e.args[0], st)
+        if isinstance(x, PyObj) and getattr(x, "total", None) is not None:
+            return x.total
+        raise Unsupported("sum of %r" % (x,))
+
+    def len_(eng, e, st, spec):
+        x = eng.ev(e.args[0], st)
+        if isinstance(x, PyObj) and x.kind == "column view":
+            return (x.hi - x.lo) * (MULT if x.as_float else 1)
+        if isinstance(x, (tuple, str)):
+            return len(x)
+        raise Unsupported("len of %r" % (x,))
+
+    def np_any(eng, e, st, spec):
+        v = eng.ev(e.args[0], st)
+        if not (isinstance(v, PyObj) and v.kind == "column view" and z3.simplify(v.lo == 0).eq(z3.BoolVal(True))):
+            raise Unsupported("np.any argument")
+        return ANY(v.col)
+
+    def unfold_runs(eng, e, st, spec):
+        cc, k = [eng.to_int(eng.ev(a, st, True)) for a in e.args]
+        facts = [PS(cc, k + 1) == PS(cc, k) + R1(cc, k),
+                 z3.Implies(z3.And(k >= 0, k < NS(cc)), z3.And(R0(cc, k) >= 0, R1(cc, k) >= 1, R0(cc, k) + R1(cc, k) <= ROWS, PS(cc, k + 1) <= TOT(cc)))]
+        if layout == "nonbigmat":
+            # D4 (recorded known finding of C04): a run of >= 16384 reals overflows the packed string header; the contract covers the runs below that limit
+            facts.append(z3.Implies(z3.And(k >= 0, k < NS(cc)), 2 * R1(cc, k) * MULT + 1 <= 32767))
+        return z3.And(*facts)
+
+    def reader_string_def(eng, e, st, spec):
+        """the READER's definition of a string header (op4_readers.string_header_def) on the words just written: L value words for rows row.."""
+        S, L, row = [eng.to_int(eng.ev(a, st, True)) for a in e.args]
+        W = st.env["W4__"]
+        hdr, hb = OR.string_header_def(lambda p: z3.Select(W, p), S, z3.IntVal(4), L, row, layout)
+        return hdr
+
+    b.update({"isinstance": isinstance_, "OP4._sparse_col_stats": col_stats, "sum": sum_, "len": len_, "np.any": np_any, "NS": None, "UNFOLD_RUNS": unfold_runs,
+              "READER_STRING_DEF": reader_string_def})
+    uf2 = lambda f: (lambda eng, e, st, spec: f(*[eng.to_int(eng.ev(a, st, spec)) for a in e.args]))
+    b.update({"NS": uf2(NS), "R0": uf2(R0), "R1": uf2(R1), "PS": uf2(PS), "TOT": uf2(TOT)})
+    c.param_types.update({"self": ("const", selfobj)})
+    c.types(f=("const", env["fileobj"]), name=("const", PyObj("name")), matrix=("const", matrix), endian=("const", env["endian"]), form=("const", None),
+            COLS__="int", P0__="int", MULT=("const", MULT), ROWS=("const", ROWS))
+    c.ghost("pos__", "int", "P0__")
+    c.ghost("rec0__", "int", "0")
+    c.ghost("nrec__", "int", "0")
+    c.ghost("S__", "int", "0")
+    for g in ("W4__", "VCOL__", "VLO__", "VN__"):
+        c.ghost(g, "intmap", None)
+    cap = "24 * ROWS + 12 <= 2147483647"          # reclen = 4 * (3 + HW*NS + 2*TOT*MULT) <= 4 * (3 + 2*ROWS + 4*ROWS)
+    c.requires("COLS__ >= 0", "MULT == 1 or MULT == 2", "ROWS >= 0", "P0__ >= 0", "COLS__ < 2147483647", cap, "NDATA(0) == 0",
+               *(["ROWS < 65536"] if layout == "nonbigmat" else []))
+    NW = "%d * NS(c) + 2 * TOT(c) * MULT" % HW
+    # last clause: the last record written is complete - its trailer repeats its length marker and the file ends right after it (no text anchor needed for the trailer write)
+    c.loop("S.0", invariant=["0 <= nx_c", "nx_c <= cols", "cols == COLS__", "multiplier == MULT", "nrec__ == NDATA(nx_c)", "pos__ >= P0__ + 32",
+                             "nrec__ == 0 or pos__ == rec0__ + 4 + W4(rec0__) + 4 and W4(pos__ - 4) == W4(rec0__)"], unfold=["UNFOLD_NDATA(nx_c)"])
+    c.loop("S.0.0", invariant=["0 <= nx_r0", "nx_r0 <= NS(c)", "ANY(c)", "0 <= c", "c < cols", "cols == COLS__", "multiplier == MULT", "NS(c) >= 1", "NS(c) <= TOT(c)", "TOT(c) <= ROWS",
+                               "PS(c, 0) == 0", "PS(c, NS(c)) == TOT(c)", "PS(c, nx_r0) >= 0", "pos__ == S__", "S__ == rec0__ + 16 + %d * nx_r0 + 8 * MULT * PS(c, nx_r0)" % (4 * HW),
+                               "reclen == 4 * (3 + %s)" % NW, "W4(rec0__) == reclen", "W4(rec0__ + 4) == c + 1", "W4(rec0__ + 8) == 0", "W4(rec0__ + 12) == %s" % NW,
+                               "nrec__ == NDATA(c) + 1", "pos__ >= P0__ + 32"],
+           unfold=["UNFOLD_RUNS(c, nx_r0)"])
+    c.after_stmt("reclen = _write_col_header(f, ind, c, multiplier, colHeader)", ["S__ = pos__",
+                 "assert W4(rec0__) == reclen and reclen == 4 * (3 + %s)" % NW, "assert W4(rec0__ + 4) == c + 1 and W4(rec0__ + 8) == 0 and W4(rec0__ + 12) == %s" % NW,
+                 "assert pos__ == rec0__ + 16"], occurrence=0)
+    hb = 4 * HW
+    c.after_stmt("_write_data_string(f, string, r0, r1, multiplier, LrStruct, endian)",
+                 ["assert READER_STRING_DEF(S__, 2 * r1 * MULT, r0 + 1)",
+                  "assert VCOL(S__ + %d) == c and VLO(S__ + %d) == r0 and VN(S__ + %d) == r1 * MULT" % (hb, hb, hb),
+                  "assert pos__ == S__ + %d + 8 * r1 * MULT" % hb,
+                  "S__ = pos__"], occurrence=0)
+    c.ensures("nrec__ == NDATA(COLS__) + 1", "W4(rec0__) == 20", "W4(rec0__ + 4) == COLS__ + 1", "W4(rec0__ + 8) == 1", "W4(rec0__ + 12) == 2",
+              "VN(rec0__ + 16) == 1", "W4(rec0__ + 24) == 20", "pos__ == rec0__ + 28")
+    return c, b
+
+
+def jobs_sparse(src):
+    out = []
+    for lay in ("bigmat", "nonbigmat"):
+        c, b = sparse_writer(lay)
+        out.append(dict(contract=c, source=src, builtins=b, lang="python", tag="op4.%s[ndarray; _write_binary_sparse and the nested helpers inlined; ghost output file]" % c.qualname.split(".")[1],
+                        dropped_extra={"branch not covered": "the scipy.sparse branch of _write_binary_sparse - bounded round trips only",
+                                       "assumed": "_sparse_col_stats(v.nonzero()[0]) lists the maximal runs of non-zeros of the column; _write_binary_header as in the dense contract"
+                                       + ("; runs shorter than the D4 limit (recorded known finding)" if lay == "nonbigmat" else "")}))
+    return out
